@@ -114,10 +114,26 @@ def as_path(p, kind):
         os.chdir(os.path.dirname(p))
         p = os.path.basename(p) if kind.endswith("plain") else os.path.join(".", os.path.basename(p))
         return Path(p) if "Path" in kind else p
+    if kind == "fspath-object" or kind == "DirEntry":
+        # any os.PathLike is a path: an object that has nothing but __fspath__, or the DirEntry os.scandir() hands out for an existing file
+        if kind == "DirEntry" and os.path.lexists(p):
+            with os.scandir(os.path.dirname(p)) as it:
+                for e in it:
+                    if e.name == os.path.basename(p):
+                        return e
+
+        class OnlyFspath:
+            def __init__(self, s):
+                self._s = s
+
+            def __fspath__(self):
+                return self._s
+
+        return OnlyFspath(p)
     return Path(p) if kind == "Path" else p
 
 
-PATH_KINDS = ["str", "Path", "str", "Path", "relative-plain", "relative-dot-Path"]
+PATH_KINDS = ["str", "Path", "str", "Path", "relative-plain", "relative-dot-Path", "fspath-object", "DirEntry"]
 CALL_STYLES = ["positional", "positional", "keyword"]   # the documented parameter names: Tdf.new(filename=...), tdf.copy(new_filename=...)
 
 
@@ -235,7 +251,8 @@ def run_new(ctx, case):
 def copy_strategy(tier):
     op = st.fixed_dictionaries({"side": st.sampled_from(["copy", "original"]), "op": st.sampled_from(["add", "remove", "replace"]), "k": st.integers(0, 20),
                                 "block": container.block_ops_payload()})
-    return st.fixed_dictionaries({"target": st.sampled_from(ABSENT_KINDS + ["absent"] + TARGETS[1:]), "path": st.sampled_from(PATH_KINDS),
+    return st.fixed_dictionaries({"target": st.sampled_from(ABSENT_KINDS + ["absent"] + TARGETS[1:] + ["source-itself", "source-other-spelling", "hardlink-to-source",
+                                                                                                        "symlink-to-source"]), "path": st.sampled_from(PATH_KINDS),
                                   "inside_context": st.sampled_from([False, False, True]),
                                   "seed": st.integers(0, 10 ** 6), "source": container.init_images(), "followup": st.lists(op, max_size=5),
                                   "source_via_library": st.booleans(), "call": st.sampled_from(CALL_STYLES), "zero_tail": st.sampled_from([None, None, "small", "one-chunk", "many-chunks"]),
@@ -243,6 +260,7 @@ def copy_strategy(tier):
                                   "source_state": st.sampled_from(SOURCE_STATES)})
 
 
+SELF_TARGETS = ["source-itself", "source-other-spelling", "hardlink-to-source", "symlink-to-source"]
 SOURCE_STATES = ["fresh", "fresh", "armed", "read-before", "written-before", "armed-after-read", "armed-twice", "left-by-exception"]
 
 
@@ -271,8 +289,8 @@ def enum_copy_states(tier):
     src = {"source": "image", "N": 4, "blocks": [{"kind": "spec", "spec": {"t": "events", "format": 1, "startTime": 0, "events": [{"label": "e", "type": 0, "values": [0x3F800000]}]},
                                                   "comment": "c", "cdate": 5, "mdate": 6}], "version": 1}
     for state in sorted(set(SOURCE_STATES)):
-        for target in ABSENT_KINDS + TARGETS[1:]:
-            for path in ("str", "Path", "relative-plain"):
+        for target in ABSENT_KINDS + TARGETS[1:] + SELF_TARGETS:
+            for path in ("str", "Path", "relative-plain", "fspath-object", "DirEntry"):
                 for seed in range(13 if target in ABSENT_KINDS else 18):
                     if seed >= 3 and (path != "str" or state not in ("fresh", "armed")):
                         continue
@@ -307,7 +325,23 @@ def run_copy(ctx, case):
                                                   "signals": [{"label": "silence", "channel": 0, "frames": [0] * n_}]}))
                         ctx.label("source:zero-tail-" + zt)
             src_bytes = open(src_path, "rb").read()
-            p, before = make_target(d, case["target"], case["seed"])
+            p, before = make_target(d, case["target"], case["seed"]) if case["target"] not in SELF_TARGETS else (None, None)
+            if case["target"] in SELF_TARGETS:
+                # the target designates the SOURCE FILE ITSELF - the same path, another spelling of it, a hard link or a symbolic link to it: an
+                # existing target like any other (refused, untouched), not "nothing to do"
+                sdir_ = os.path.dirname(src_path)
+                if case["target"] == "source-itself":
+                    p = src_path
+                elif case["target"] == "source-other-spelling":
+                    p = os.path.join(sdir_, ".", "sub", "..", os.path.basename(src_path))
+                    os.makedirs(os.path.join(sdir_, "sub"), exist_ok=True)
+                elif case["target"] == "hardlink-to-source":
+                    p = os.path.join(d, "second-name.tdf")
+                    os.link(src_path, p)
+                else:
+                    p = os.path.join(d, "link-to-source.tdf")
+                    os.symlink(src_path, p)
+                before = src_bytes
             how_src = case.get("source_path", "direct")
             if how_src != "direct":
                 # the source object is opened through another name of the same file; the copy must still be a regular, independent file
@@ -618,8 +652,8 @@ SUBS = [
     Sub("copy", run_copy, strategy=copy_strategy, budget=(200, 5000), shards=(4, 16),
         rule="Tdf.copy of generated sources against every target state; byte identity; independence under follow-up mutations of either file"),
     Sub("new-every-name", run_new, kind="enum", shards=(2, 4),
-        enumerate=lambda tier: ({"target": t, "path": p, "seed": s, "call": "keyword" if s % 2 else "positional"} for t in TARGETS + ABSENT_KINDS[1:] for p in ("str", "Path", "relative-plain")
-                                for s in range(18 if t not in ABSENT_KINDS else 13) if t in ABSENT_KINDS or p != "relative-plain" or s < 3),
+        enumerate=lambda tier: ({"target": t, "path": p, "seed": s, "call": "keyword" if s % 2 else "positional"} for t in TARGETS + ABSENT_KINDS[1:] for p in ("str", "Path", "relative-plain", "fspath-object", "DirEntry")
+                                for s in range(18 if t not in ABSENT_KINDS else 13) if t in ABSENT_KINDS or p not in ("relative-plain", "fspath-object", "DirEntry") or s < 3),
         rule="Tdf.new against every target state x every awkward target name (brackets, wildcards, braces, %, $, blanks, non-ASCII, 200 characters, upper-case suffix, "
              "trailing dot) x path kind; finite, enumerated", nontrivial_required=False),
     Sub("copy-source-states", run_copy, kind="enum", enumerate=enum_copy_states, shards=(4, 8),
